@@ -55,7 +55,7 @@ CHECKS = {
             "real-valued runs are sampled (5 quick / 16 thorough objects incl. a 24-month hourly run); tolerance 1e-9 relative", "5/C09"),
     "C11": ("model_checking", "GJoin.tla exhaustive axis pairs + GInterp.tla decision table (TLC) + replay of combine_sts_lts / g_function_interpolation + real GFunction / GHE objects",
             "The join is exhaustively checked over all pairs of integer axes within the bounds and replayed into the real static method; the stored-height identity, the radius correction and the interpolation cache are exercised on real GFunction objects (tables stored in shuffled height order), the decision table and cache of g_function_interpolation are GInterp.tla replayed case by case, and both join branches run on real GHE objects.",
-            "NOT decided here: the analytic finite-line-source anchor (1e-4 / 1e-6) and the 20 % MIFT band of the property - they are numerical statements about pygfunction with no discrete structure (DESIGN.md section 10); exact float coincidence of a short-time point with -8.5 is the listed finding F17", "5/C11"),
+            "the analytical finite-line-source anchor (1e-4 / 1e-6) and the 20 % band are measured on a few fields against an independent scipy.quad reference (no model: numerical statement; irregular / large fields: listed finding F27); exact float coincidence of a short-time point with -8.5 is the listed finding F17", "5/C11"),
     "C14": ("model_checking", "RowWiseSweep.tla sweep + liveness (TLC) + replay with count oracle + closed-form lattice + watchdog runs on random convex lots",
             "First-strict-maximum selection and termination of the sweep are checked exhaustively on the model and replayed into both optimisers; the closed-form lattice is compared on every integer lot in range; geometry clauses (inside, no-go, spacing, translation) are measured on random convex lots under a wall-clock watchdog.",
             "geometry clauses are sampled (exploration); translation is judged only when per-rotation counts agree (borderline row ends are fp-dependent); exact-divisible lot sizes accept either rounding; a row through two no-go vertices is the listed finding F20", "5/C14"),
